@@ -287,7 +287,7 @@ impl Stream for RandomTrees
 	}
 	fn count(&self, tier: Tier) -> u64
 	{
-		tier.pick(20_000, 600_000)
+		tier.pick(150_000, 600_000)
 	}
 	fn choice_len(&self) -> usize
 	{
